@@ -27,11 +27,11 @@ func (s *Store) snapshotRevert(revertTo Snapshot) error {
 			" fileNameCurr: %s", revertToFooter.fileName, fileNameCurr)
 	}
 
-	// Any persisted segment gives the file, also one of a child collection
-	// when the top-level collection has none.
-	mref := revertToFooter.anyMmapRef()
-	if mref == nil || mref.fref == nil || mref.fref.file == nil {
-		return fmt.Errorf("revert footer has no persisted segments")
+	// The footer knows its file, also when the top-level collection has
+	// no persisted segments that would refer to it.
+	fref := revertToFooter.fref
+	if fref == nil || fref.file == nil {
+		return fmt.Errorf("revert footer has no file")
 	}
 
 	persistOptions := StorePersistOptions{}
@@ -40,7 +40,9 @@ func (s *Store) snapshotRevert(revertTo Snapshot) error {
 		return err
 	}
 
-	err = s.persistFooter(mref.fref.file, footer, persistOptions)
+	footer.setFileRef(fref)
+
+	err = s.persistFooter(fref.file, footer, persistOptions)
 	if err != nil {
 		footer.DecRef()
 		return err
